@@ -265,11 +265,29 @@ class VtUpperFilter(DocumentFilter):
 
 
 HARNESS_FILTERS = ("vt_append", "vt_upper")
+
+
+def registered_filter(name):
+  """the filter class whose configuration class has exactly this name - read from the classes themselves, not from ttconv's own
+  registry look-up, so that a look-up that finds more (or less) than the registered names differs from the oracle (seeded change C19-20)"""
+  todo = list(DocumentFilter.__subclasses__())
+  found = None
+  while todo:
+    c = todo.pop()
+    todo.extend(c.__subclasses__())
+    try:
+      if c.get_config_class().name() == name:
+        found = c if found is None or found is c else found
+    except NotImplementedError:
+      pass
+  return found
 FILTER_LISTS = ([], ["lcd"], ["lcd", "lcd"], ["vt_append", "vt_upper"], ["vt_upper", "vt_append"], ["vt_append", "vt_append"],
                 ["lcd", "vt_append"], ["vt_upper", "lcd"], ["vt_append", "lcd", "vt_upper"],
                 # a name that names no registered filter contributes nothing (tt.py logs it); the filters named after it still apply
-                ["vt_nosuch", "lcd"], ["vt_upper", "vt_nosuch", "vt_append"])
-SUBPROCESS_FILTER_LISTS = ([], ["lcd"], ["lcd", "lcd"], ["vt_nosuch", "lcd"])
+                ["vt_nosuch", "lcd"], ["vt_upper", "vt_nosuch", "vt_append"],
+                # names are exact: a case variant of a registered name names no filter
+                ["LCD"], ["vt_upper", "Lcd"])
+SUBPROCESS_FILTER_LISTS = ([], ["lcd"], ["lcd", "lcd"], ["vt_nosuch", "lcd"], ["LCD"])
 
 # ------------------------------------------------------------------------------------------------ documented configuration values
 # Transcribed from /repo/README.md, sections "General configuration" ... "LCD filter configuration".  One entry per documented key:
@@ -280,7 +298,7 @@ SUBPROCESS_FILTER_LISTS = ([], ["lcd"], ["lcd", "lcd"], ["vt_nosuch", "lcd"])
 _BOOL_VALID = [True, False]
 _BOOL_INVALID = [("bool", "false"), ("bool", "true"), ("bool", 0), ("bool", 1), ("bool", "x"), ("bool", None)]
 _COLORS = ["#FFFFFF", "white", "#FF0000", "transparent", "black", "red", "#00ff0080"]
-_COLOR_INVALID = [("type", 5), ("type", True), ("syntax", "notacolor"), ("syntax", "#12"), ("range", "rgb(300,0,0)"), ("range", "rgba(0,0,0,999)")]
+_COLOR_INVALID = [("type", 5), ("type", True), ("type", 0), ("type", False), ("type", []), ("syntax", ""), ("syntax", "notacolor"), ("syntax", "#12"), ("range", "rgb(300,0,0)"), ("range", "rgba(0,0,0,999)")]
 
 DOC = {
   "general": {
@@ -701,7 +719,7 @@ def compose(expect, root, lang="before"):
   if lang == "before":
     set_lang()
   for name in flist:
-    fclass = DocumentFilter.get_filter_by_name(name)
+    fclass = registered_filter(name)
     if fclass is None:
       continue
     fcfg_class = fclass.get_config_class()
